@@ -147,7 +147,7 @@ func ruleNoPrefixOnJoin(w *core.World, r *core.Report) {
 	r.Rule("NO-PREFIX-ON-JOIN", 1, "(shared by C08, C11, C14) a prefix test against a joined instance path must test whole elements: the prefix operand ends with the separator ('<joined path> + sep'). A bare HasPrefix(key, join(path)) also matches siblings whose name merely starts with the last element (eth1 vs eth10, case member 'log' vs leaf 'log-level'). Joined paths are followed by value flow through variables, slices and maps in all repository packages.")
 	fl := w.NewFlow()
 	for _, f := range w.RepoFns {
-		for _, c := range core.CallsTo(f, "strings.Join") {
+		for _, c := range core.OwnCallsTo(f, "strings.Join") {
 			if v := c.Value(); v != nil {
 				fl.AddSource(v)
 			}
@@ -159,7 +159,7 @@ func ruleNoPrefixOnJoin(w *core.World, r *core.Report) {
 		if f.Pkg == nil || !strings.HasPrefix(f.Pkg.Pkg.Path(), core.Module+"/pkg/") || strings.Contains(f.Pkg.Pkg.Path(), "/mocks/") {
 			continue
 		}
-		for _, c := range core.CallsTo(f, "strings.HasPrefix") {
+		for _, c := range core.OwnCallsTo(f, "strings.HasPrefix") {
 			args := core.CallArgs(c)
 			if len(args) != 2 {
 				continue
@@ -533,7 +533,7 @@ func c10(w *core.World, r *core.Report) {
 		if f.Pkg == nil || f.Pkg.Pkg.Path() != core.Module+"/pkg/datastore/target" {
 			continue
 		}
-		for _, c := range core.CallsTo(f, "datastore/target.TargetSource.ToXML") {
+		for _, c := range core.OwnCallsTo(f, "datastore/target.TargetSource.ToXML") {
 			a := core.CallArgs(c)
 			ok := len(a) == 4
 			if ok {
@@ -626,7 +626,7 @@ func c10(w *core.World, r *core.Report) {
 		if f.Pkg == nil || f.Pkg.Pkg.Path() != core.Module+"/pkg/tree" {
 			continue
 		}
-		for _, c := range core.CallsTo(f, "github.com/beevik/etree.Element.CreateAttr") {
+		for _, c := range core.OwnCallsTo(f, "github.com/beevik/etree.Element.CreateAttr") {
 			a := core.CallArgs(c)
 			if len(a) == 2 {
 				if s, isC := core.ConstString(a[0]); isC && strings.Contains(s, "operation") {
